@@ -59,14 +59,21 @@ fn gen_tree(p: &mut Pool, depth: usize) -> OptSpec {
         let d = if p.rng.chance(1, 3) { 0 } else { depth - 1 };
         let mut opts = gen_tree(p, d);
         opts.descr = Some(format!("D{}-descr", id));
-        cmds.push(Spec::Cmd(Box::new(CmdSpec {
+        let cmd = Spec::Cmd(Box::new(CmdSpec {
             id,
             names,
             shorts,
             help: None,
             adjacent: false,
             opts,
-        })));
+        }));
+        // a hidden subcommand is a subcommand all the same
+        if p.rng.chance(1, 6) {
+            let hid = p.id();
+            cmds.push(Spec::wrap(W::Hide, hid, cmd));
+        } else {
+            cmds.push(cmd);
+        }
     }
     if p.rng.chance(1, 5) {
         // an alternative made of named items only, listed before the commands: it succeeds on
@@ -193,6 +200,13 @@ pub fn run_case(case: &mut Case) {
         spec.version = Some("1.2.3".to_string());
     }
     let b = Bench::new(case, spec);
+    // (the short names inside a hidden command are unknown to the tokenizer - the F03 family,
+    // C02's subject: lines for such trees are written without clusters and squashed values)
+    let spell = if b.spec.pretty().contains(".hide()") {
+        SpellStyle::Canonical
+    } else {
+        SpellStyle::Random
+    };
     let n_der = if case.thorough { 30 } else { 12 };
     for di in 0..n_der {
         let mut g = Gen::new(&mut rng);
@@ -207,7 +221,7 @@ pub fn run_case(case: &mut Case) {
             Some(u) => u,
             None => continue,
         };
-        let line = render(&units, &mut rng, SpellStyle::Random);
+        let line = render(&units, &mut rng, spell);
         let max_depth = units.iter().map(|u| u.depth).max().unwrap_or(0);
         case.rep.count(&format!("entered-depth:{}", max_depth));
         judge(
@@ -256,7 +270,7 @@ pub fn run_case(case: &mut Case) {
                 .position(|x| x.kind == UKind::DashDash)
                 .unwrap_or(at);
             m.insert(at, u);
-            let mline = render(&m, &mut rng, SpellStyle::Random);
+            let mline = render(&m, &mut rng, spell);
             let r = b.expect_stderr(
                 case,
                 &mline.argv,
